@@ -215,6 +215,18 @@ class EngineBase:
             self.add_class(ClassDecl(name, fields={"$v": fty}, box=(kind,) + tuple(tys)))
         return name
 
+    def LIST(self, elem) -> TRef:
+        return TRef(self.box_class("list", elem))
+
+    def DICT(self, k, v) -> TRef:
+        return TRef(self.box_class("dict", k, v))
+
+    def SET(self, elem) -> TRef:
+        return TRef(self.box_class("set", elem))
+
+    def COUNTER(self, elem) -> TRef:
+        return TRef(self.box_class("counter", elem))
+
     def _box_from_name(self, name):
         return None
 
@@ -331,6 +343,7 @@ class EngineBase:
         else:
             for k in keys:
                 kk, ty = self.heap_key(*k) if k != self.ALLOC else (self.ALLOC, BOOL)
+                self.heap_arrays(p, kk, ty)   # make sure the pre-havoc array exists (for frame checks)
                 p.heap[kk] = self._arrays_for(kk, ty, fresh_name("hv"))
         new_alloc = self.alloc_arr(p)
         if new_alloc is not old_alloc:
@@ -339,6 +352,7 @@ class EngineBase:
 
     # ---------------------------------------------------------------- obligations / forking
     def oblige(self, p: Path, goal, kind, where="", extra=None):
+        raw = goal
         goal = z3.simplify(goal)
         if z3.is_true(goal):
             # still count it: discharged by simplification
@@ -346,7 +360,7 @@ class EngineBase:
             ob.status, ob.backend = "proved", "simplify"
             self.obligations.append(ob)
             return
-        self.obligations.append(Obligation(self._obname(kind, where), p.pc, goal, kind, where, extra))
+        self.obligations.append(Obligation(self._obname(kind, where), p.pc, raw, kind, where, extra))
 
     def _obname(self, kind, where):
         t = self.cur_target or "?"
